@@ -114,6 +114,12 @@ def r4_flags_and_iterations(ctx):
     gcfg = Cfg(g)
     rs = [b for b in sorted(gcfg.reach) if g["blocks"][b]["term"]["k"] == "call" and g["blocks"][b]["term"]["callee"].get("key") == SEARCH + "reset_for_go"]
     bm = [b for b in sorted(gcfg.reach) if g["blocks"][b]["term"]["k"] == "call" and g["blocks"][b]["term"]["callee"].get("key") == SEARCH + "best_move"]
+    if not bm:
+        # the search is started some other way (best_move renamed, merged into go): judged on the search_negamax calls
+        bm = [b for b in sorted(gcfg.reach) if g["blocks"][b]["term"]["k"] == "call" and g["blocks"][b]["term"]["callee"].get("key") == SEARCH + "search_negamax"]
+    if not bm:
+        ctx.lost(rid, "the call that starts the search in Search::go")
+        return
     ok = len(rs) >= 1 and len(bm) >= 1 and all(any(gcfg.dominates(r, b) for r in rs) for b in bm)
     ctx.ob(rid, "go|reset-before-search", ok, "" if ok else "Search::go does not call reset_for_go before best_move on every path", ctx.where(g))
     # best_move: between the iteration's return and the test of the stop flag nothing may set the flag
